@@ -1317,9 +1317,10 @@ CHECK = Check(
     rule=(
         "case = history of 2-8 operations from {serve_forever, shutdown, server_close, server_activate, connect-a-client, wait-k-ticks}, "
         "each assigned to one of 1-3 tasks with a tick-exact start offset, x listener-factory / service_init / service tear-down / "
-        "listener close durations in ticks, x TCP|UDP, run on the virtual-time loop against the unmodified async servers over in-memory "
+        "listener close durations in ticks (the listener factory optionally cancel-shielded, as the real address resolution is), x TCP|UDP, run on the virtual-time loop against the unmodified async servers over in-memory "
         "listeners (layer async); the same kind of history with 2-3 real threads, loopback sockets and millisecond sleeps against the "
-        "standalone servers (layer standalone, schedule randomised not owned); non-trivial = at least two lifecycle operations overlap "
+        "standalone servers (layer standalone, schedule randomised not owned); layer in-loop: server_close() of the standalone object called "
+        "from a callback in the server's own event-loop thread (must return or raise, never deadlock); non-trivial = at least two lifecycle operations overlap "
         "in time, or a serve_forever starts after a shutdown returned; distinct = sha1 of the canonical case JSON"
     ),
     layers=[
